@@ -302,21 +302,12 @@ func checkC05(p *ana.Prog, r *ana.Result) {
 	{
 		n0 := len(r.Obls)
 		c10Coverage(p, r)
-		kept := r.Obls[:n0]
-		for _, o := range r.Obls[n0:] {
-			if strings.Contains(o.Key, "stop-at-authenticator") {
-				o.Rule = "C05.authenticated-fields"
-				o.Key = strings.Replace(o.Key, "C10.coverage", "C05.authenticated-fields", 1)
-				kept = append(kept, o)
-			} else if strings.Contains(o.Key, ").authenticate |") && strings.HasPrefix(o.Key, "C10.coverage") {
-				// "verify under the server-to-client key": authenticate succeeds only through the
-				// AEAD Open of the packet's own nonce/ciphertext over the recorded prefix
-				o.Rule = "C05.nts-verify"
-				o.Key = strings.Replace(o.Key, "C10.coverage", "C05.nts-verify", 1)
-				kept = append(kept, o)
-			}
-		}
-		r.Obls = kept
+		shareObls(p, r, n0, "C10.coverage", "C05.authenticated-fields", "net/nts.DecodePacket", "stop-at-authenticator")
+		// "verify under the server-to-client key": authenticate succeeds only through the AEAD Open
+		// of the packet's own nonce/ciphertext over the recorded prefix
+		n1 := len(r.Obls)
+		c10Coverage(p, r)
+		shareObls(p, r, n1, "C10.coverage", "C05.nts-verify", "(*net/nts.Packet).authenticate", ").authenticate |")
 	}
 	n := 0
 	for _, o := range r.Obls {
